@@ -437,7 +437,7 @@ Redefine(n) ==
 
 \* clear_caches() by any other route (decorating some unrelated redefined class)
 ClearCaches ==
-  /\ Step /\ ClearEffect /\ UNCHANGED gen
+  /\ ClearS /\ Step /\ ClearEffect /\ UNCHANGED gen
   /\ last' = Rec("clear", "-", "-", NoAns, NoAns, FALSE, FALSE, FALSE, FALSE)
 
 Init ==
@@ -456,7 +456,7 @@ Next ==
   \/ Drop
   \/ \E dn \in LeHeldHDs : LeHeld(dn)
   \/ \E n \in RedefS : Redefine(n)
-  \/ (ClearS /\ ClearCaches)
+  \/ ClearCaches
 Spec == Init /\ [][Next]_vars
 
 (* ---------------------------------------------------------------- properties *)
